@@ -21,6 +21,7 @@ CONSTANTS
  MsgA <- MC_MsgA
  MsgB <- MC_MsgB
  Modes <- MC_Modes
+ MaxCheaters <- MC_MaxCheaters
  EMIT <- MC_EMIT
 INIT Init
 NEXT Next
